@@ -421,6 +421,8 @@ pub struct RecLog {
     pub bytes: Vec<u8>,
     pub words: usize,
     pub flushes: usize,
+    /// number of words delivered since the backend's flush was last called
+    pub unflushed_words: usize,
 }
 
 pub struct RecWriter<W> {
@@ -443,16 +445,32 @@ macro_rules! impl_rec {
                 let mut l = self.log.borrow_mut();
                 l.bytes.extend_from_slice(&word.to_ne_bytes());
                 l.words += 1;
+                l.unflushed_words += 1;
                 Ok(())
             }
             fn flush(&mut self) -> Result<(), Self::Error> {
-                self.log.borrow_mut().flushes += 1;
+                let mut l = self.log.borrow_mut();
+                l.flushes += 1;
+                l.unflushed_words = 0;
                 Ok(())
             }
         }
     )*};
 }
 impl_rec!(u8, u16, u32, u64, u128);
+
+/// A byte sink that accepts at most `.1` bytes per `write` call.
+pub struct ChunkSink(pub Rc<RefCell<Vec<u8>>>, pub usize);
+impl std::io::Write for ChunkSink {
+    fn write(&mut self, buf: &[u8]) -> std::io::Result<usize> {
+        let k = buf.len().min(self.1);
+        self.0.borrow_mut().extend_from_slice(&buf[..k]);
+        Ok(k)
+    }
+    fn flush(&mut self) -> std::io::Result<()> {
+        Ok(())
+    }
+}
 
 // ---------------------------------------------------------------------------------------------
 // Word <-> byte images
@@ -677,6 +695,13 @@ where
             }
             WRun { bytes: v, end_flush: ef, rec: None }
         }
+        WBackend::AdapterChunked => {
+            let sink = Rc::new(RefCell::new(Vec::<u8>::new()));
+            let be = WordAdapter::<W, _>::new(ChunkSink(sink.clone(), 3));
+            let (_b, ef) = E::run(be, cfg.wrap, end, f, None);
+            let bytes = sink.borrow().clone();
+            WRun { bytes, end_flush: ef, rec: None }
+        }
         WBackend::Recording => {
             let log: RecHandle = Rc::new(RefCell::new(RecLog::default()));
             let be = RecWriter::<W>::new(log.clone());
@@ -693,13 +718,13 @@ where
 
 trait ReaderE: Endianness {
     /// buffered reader over `wr`
-    fn buf<WR>(wr: WR, wrap: RWrap, clonable: bool, f: &mut dyn FnMut(&mut dyn DynR))
+    fn buf<WR>(wr: WR, nwords: usize, pre: usize, wrap: RWrap, clonable: bool, f: &mut dyn FnMut(&mut dyn DynR))
     where
         WR: WordRead + WordSeek<Error = <WR as WordRead>::Error> + MaybeClone,
         WR::Word: common_traits::DoubleType + common_traits::UpcastableInto<u64>,
         <WR::Word as common_traits::DoubleType>::DoubleType: CastableInto<u64> + std::fmt::Display;
     /// unbuffered reader over a u64 backend
-    fn unbuf<WR>(wr: WR, wrap: RWrap, clonable: bool, f: &mut dyn FnMut(&mut dyn DynR))
+    fn unbuf<WR>(wr: WR, nwords: usize, pre: usize, wrap: RWrap, clonable: bool, f: &mut dyn FnMut(&mut dyn DynR))
     where
         WR: WordRead<Word = u64> + WordSeek<Error = <WR as WordRead>::Error> + MaybeClone;
 }
@@ -748,13 +773,16 @@ impl<W: dsi_bitstream::traits::Word> MaybeClone for WordAdapter<W, std::io::BufR
 macro_rules! impl_reader_e {
     ($E:ty) => {
         impl ReaderE for $E {
-            fn buf<WR>(wr: WR, wrap: RWrap, clonable: bool, f: &mut dyn FnMut(&mut dyn DynR))
+            fn buf<WR>(wr: WR, nwords: usize, pre: usize, wrap: RWrap, clonable: bool, f: &mut dyn FnMut(&mut dyn DynR))
             where
                 WR: WordRead + WordSeek<Error = <WR as WordRead>::Error> + MaybeClone,
                 WR::Word: common_traits::DoubleType + common_traits::UpcastableInto<u64>,
                 <WR::Word as common_traits::DoubleType>::DoubleType: CastableInto<u64> + std::fmt::Display,
             {
-                let br = BufBitReader::<$E, Cl<WR>>::new(Cl(wr));
+                let mut br = BufBitReader::<$E, Cl<WR>>::new(Cl::new(wr, nwords));
+                if pre > 0 {
+                    br.skip_bits(pre).expect("pre-wrap skip within the data");
+                }
                 type T<WR> = BufBitReader<$E, Cl<WR>>;
                 match wrap {
                     RWrap::None => {
@@ -792,11 +820,14 @@ macro_rules! impl_reader_e {
                     }
                 }
             }
-            fn unbuf<WR>(wr: WR, wrap: RWrap, clonable: bool, f: &mut dyn FnMut(&mut dyn DynR))
+            fn unbuf<WR>(wr: WR, nwords: usize, pre: usize, wrap: RWrap, clonable: bool, f: &mut dyn FnMut(&mut dyn DynR))
             where
                 WR: WordRead<Word = u64> + WordSeek<Error = <WR as WordRead>::Error> + MaybeClone,
             {
-                let br = BitReader::<$E, Cl<WR>>::new(Cl(wr));
+                let mut br = BitReader::<$E, Cl<WR>>::new(Cl::new(wr, nwords));
+                if pre > 0 {
+                    br.skip_bits(pre).expect("pre-wrap skip within the data");
+                }
                 type T<WR> = BitReader<$E, Cl<WR>>;
                 match wrap {
                     RWrap::None => {
@@ -833,10 +864,20 @@ macro_rules! impl_reader_e {
 
 /// Uniform Clone facade: clones through MaybeClone and panics if asked to clone an unclonable
 /// backend (never happens: `clonable` is computed from the same MaybeClone answer).
-pub struct Cl<T>(pub T);
+pub struct Cl<T> {
+    pub inner: T,
+    /// words read since the last seek / number of data words: a fuse against runaway reads
+    reads: u64,
+    limit: u64,
+}
+impl<T> Cl<T> {
+    pub fn new(inner: T, data_words: usize) -> Self {
+        Cl { inner, reads: 0, limit: data_words as u64 + 4096 }
+    }
+}
 impl<T: MaybeClone> Clone for Cl<T> {
     fn clone(&self) -> Self {
-        Cl(self.0.try_clone().expect("backend cannot be cloned"))
+        Cl { inner: self.inner.try_clone().expect("backend cannot be cloned"), reads: self.reads, limit: self.limit }
     }
 }
 impl<T: WordRead> WordRead for Cl<T> {
@@ -844,18 +885,25 @@ impl<T: WordRead> WordRead for Cl<T> {
     type Word = T::Word;
     #[inline(always)]
     fn read_word(&mut self) -> Result<T::Word, T::Error> {
-        self.0.read_word()
+        self.reads += 1;
+        if self.reads > self.limit {
+            // a zero-extending backend never ends: a reader whose state has diverged (e.g. a unary
+            // read that sees only zeros) would loop forever. Turn the hang into a reportable panic.
+            panic!("runaway: the reader fetched more than 4096 words beyond the data without a seek");
+        }
+        self.inner.read_word()
     }
 }
 impl<T: WordSeek> WordSeek for Cl<T> {
     type Error = T::Error;
     #[inline(always)]
     fn word_pos(&mut self) -> Result<u64, T::Error> {
-        self.0.word_pos()
+        self.inner.word_pos()
     }
     #[inline(always)]
     fn set_word_pos(&mut self, p: u64) -> Result<(), T::Error> {
-        self.0.set_word_pos(p)
+        self.reads = p.min(self.limit);
+        self.inner.set_word_pos(p)
     }
 }
 
@@ -877,21 +925,22 @@ where
     <W as common_traits::DoubleType>::DoubleType: CastableInto<u64> + std::fmt::Display,
 {
     let words: Vec<W> = words_of::<W>(bytes);
+    let nwords = words.len();
     match cfg.backend {
-        RBackend::InfBorrowed => E::buf(MemWordReader::<W, &[W]>::new(&words[..]), cfg.wrap, true, f),
-        RBackend::InfOwned => E::buf(MemWordReader::<W, Vec<W>>::new(words), cfg.wrap, true, f),
-        RBackend::Strict => E::buf(MemWordReader::<W, Vec<W>, false>::new_strict(words), cfg.wrap, true, f),
+        RBackend::InfBorrowed => E::buf(MemWordReader::<W, &[W]>::new(&words[..]), nwords, cfg.pre as usize, cfg.wrap, true, f),
+        RBackend::InfOwned => E::buf(MemWordReader::<W, Vec<W>>::new(words), nwords, cfg.pre as usize, cfg.wrap, true, f),
+        RBackend::Strict => E::buf(MemWordReader::<W, Vec<W>, false>::new_strict(words), nwords, cfg.pre as usize, cfg.wrap, true, f),
         RBackend::VecReadback => {
             let mut v = words;
-            E::buf(MemWordWriterVec::<W, &mut Vec<W>>::new(&mut v), cfg.wrap, false, f)
+            E::buf(MemWordWriterVec::<W, &mut Vec<W>>::new(&mut v), nwords, cfg.pre as usize, cfg.wrap, false, f)
         }
         RBackend::SliceReadback => {
             let mut v = words;
-            E::buf(MemWordWriterSlice::<W, &mut [W]>::new(&mut v[..]), cfg.wrap, false, f)
+            E::buf(MemWordWriterSlice::<W, &mut [W]>::new(&mut v[..]), nwords, cfg.pre as usize, cfg.wrap, false, f)
         }
-        RBackend::AdapterCursor => E::buf(WordAdapter::<W, _>::new(Cursor::new(bytes.to_vec())), cfg.wrap, true, f),
+        RBackend::AdapterCursor => E::buf(WordAdapter::<W, _>::new(Cursor::new(bytes.to_vec())), nwords, cfg.pre as usize, cfg.wrap, true, f),
         RBackend::AdapterBufReader => E::buf(
-            WordAdapter::<W, _>::new(std::io::BufReader::with_capacity(5, Cursor::new(bytes.to_vec()))),
+            WordAdapter::<W, _>::new(std::io::BufReader::with_capacity(5, Cursor::new(bytes.to_vec()))), nwords, cfg.pre as usize,
             cfg.wrap,
             false,
             f,
@@ -902,21 +951,22 @@ where
 fn with_unbuf_reader<E: ReaderE>(cfg: RCfg, bytes: &[u8], f: &mut dyn FnMut(&mut dyn DynR)) {
     type W = u64;
     let words: Vec<W> = words_of::<W>(bytes);
+    let nwords = words.len();
     match cfg.backend {
-        RBackend::InfBorrowed => E::unbuf(MemWordReader::<W, &[W]>::new(&words[..]), cfg.wrap, true, f),
-        RBackend::InfOwned => E::unbuf(MemWordReader::<W, Vec<W>>::new(words), cfg.wrap, true, f),
-        RBackend::Strict => E::unbuf(MemWordReader::<W, Vec<W>, false>::new_strict(words), cfg.wrap, true, f),
+        RBackend::InfBorrowed => E::unbuf(MemWordReader::<W, &[W]>::new(&words[..]), nwords, cfg.pre as usize, cfg.wrap, true, f),
+        RBackend::InfOwned => E::unbuf(MemWordReader::<W, Vec<W>>::new(words), nwords, cfg.pre as usize, cfg.wrap, true, f),
+        RBackend::Strict => E::unbuf(MemWordReader::<W, Vec<W>, false>::new_strict(words), nwords, cfg.pre as usize, cfg.wrap, true, f),
         RBackend::VecReadback => {
             let mut v = words;
-            E::unbuf(MemWordWriterVec::<W, &mut Vec<W>>::new(&mut v), cfg.wrap, false, f)
+            E::unbuf(MemWordWriterVec::<W, &mut Vec<W>>::new(&mut v), nwords, cfg.pre as usize, cfg.wrap, false, f)
         }
         RBackend::SliceReadback => {
             let mut v = words;
-            E::unbuf(MemWordWriterSlice::<W, &mut [W]>::new(&mut v[..]), cfg.wrap, false, f)
+            E::unbuf(MemWordWriterSlice::<W, &mut [W]>::new(&mut v[..]), nwords, cfg.pre as usize, cfg.wrap, false, f)
         }
-        RBackend::AdapterCursor => E::unbuf(WordAdapter::<W, _>::new(Cursor::new(bytes.to_vec())), cfg.wrap, true, f),
+        RBackend::AdapterCursor => E::unbuf(WordAdapter::<W, _>::new(Cursor::new(bytes.to_vec())), nwords, cfg.pre as usize, cfg.wrap, true, f),
         RBackend::AdapterBufReader => E::unbuf(
-            WordAdapter::<W, _>::new(std::io::BufReader::with_capacity(5, Cursor::new(bytes.to_vec()))),
+            WordAdapter::<W, _>::new(std::io::BufReader::with_capacity(5, Cursor::new(bytes.to_vec()))), nwords, cfg.pre as usize,
             cfg.wrap,
             false,
             f,
